@@ -55,6 +55,12 @@ def gen_one(rng, i, tier):
         pos = [base_ + v * step_ for v in vals[:len(pos)]]
         neg = [base_ + v * step_ for v in vals[len(pos):]]
     ep, en = gen.easy_counts(rng, stream, len(pos), len(neg))
+    if rng.random() < 0.04:
+        # populations beyond 32-bit counters
+        if rng.random() < 0.5:
+            ep = rng.choice([2**31, 2**31 + 7, 3 * 10**9, 2**33 + 1])
+        else:
+            en = rng.choice([2**31, 2**31 + 7, 3 * 10**9, 2**33 + 1])
     sc, ec = rng.choice(gen.CFGS)
     nall = len(neg) + en
     ivs = [(0.0, 1.0)]
@@ -68,7 +74,9 @@ def gen_one(rng, i, tier):
             a, b = rng.choice([(0.0, 0.5), (0.25, 0.25), (0.5, 1.0), (0.0, 0.0)])
         ivs.append((a, b))
     return {"stream": stream, "pos": pos, "neg": neg, "ep": ep, "en": en, "sc": sc, "ec": ec,
-            "ivs": ivs, "axes": rng.choice(AXES), "route": routes.pick(rng, 0.12), "rseed": rng.randint(0, 2**31 - 1)}
+            "ivs": ivs, "axes": rng.choice(AXES), "route": routes.pick(rng, 0.12), "rseed": rng.randint(0, 2**31 - 1),
+            # built from two views of one caller buffer, with further objects built from overlapping regions afterwards
+            "views": rng.random() < 0.15}
 
 
 def nontrivial(inp):
@@ -86,7 +94,14 @@ def build(inp) -> Case:
 
     inp = dict(inp)
     pos, neg, ep, en, sc, ec = inp["pos"], inp["neg"], inp["ep"], inp["en"], inp["sc"], inp["ec"]
-    s = Scores(pos, neg, nb_easy_pos=ep, nb_easy_neg=en, score_class=sc, equal_class=ec)
+    pre0 = []
+    if inp.get("views"):
+        s, changed = routes.from_views(Scores, pos, neg, nb_easy_pos=ep, nb_easy_neg=en, score_class=sc, equal_class=ec)
+        if changed:
+            pre0.append(Issue("PROPFAIL", "mw", "constructing Scores objects from views of one score vector: " + changed +
+                              " (the objects built earlier no longer hold the scores they were given)", "ctor/caller-array-modified"))
+    else:
+        s = Scores(pos, neg, nb_easy_pos=ep, nb_easy_neg=en, score_class=sc, equal_class=ec)
     routed = None
     if inp.get("route"):
         # the object reaches the query through an alternative route (harness/routes.py)
@@ -94,7 +109,7 @@ def build(inp) -> Case:
         if r_ is not None and r_[1] and r_[2]:
             s, pos, neg, ep, en, sc, ec = r_
             routed = inp["route"]
-    pre, lines, obs = [], [], []
+    pre, lines, obs = pre0, [], []
     eps = Fraction(1, 10**9)
     queries = [(lo, hi, "fpr", "tpr") for lo, hi in inp["ivs"]]
     queries.append((inp["ivs"][1][0], inp["ivs"][1][1], inp["axes"][0], inp["axes"][1]))
